@@ -34,6 +34,18 @@ func (m *Model) stepHash(c chk, name string, a []string) (error, bool) {
 			return nil, true
 		}
 		nx := name == "HSETNX"
+		if nx {
+			dupf := map[string]bool{}
+			for i := 1; i < len(a); i += 2 {
+				if dupf[a[i]] {
+					// one field twice in one HSETNX: which value wins is not fixed by anything
+					m.Soft = true
+					m.touch(a[0])
+					return nil, true
+				}
+				dupf[a[i]] = true
+			}
+		}
 		ne := &Entry{Type: THash, H: map[string]string{}}
 		if e != nil {
 			ne = e.Clone()
@@ -252,6 +264,13 @@ func (m *Model) stepHash(c chk, name string, a []string) (error, bool) {
 				if !isCanon {
 					i2, err := strconv.ParseInt(strings.TrimSpace(v), 10, 64)
 					if err != nil {
+						if _, ferr := strconv.ParseFloat(v, 64); ferr == nil {
+							// a float-valued field: the description only says "increment by the integer
+							// increment"; whether that is refused (Redis) or added is not asserted.
+							m.Soft = true
+							m.touch(a[0])
+							return nil, true
+						}
 						return c.err(), true
 					}
 					i, canon = i2, false
@@ -260,15 +279,26 @@ func (m *Model) stepHash(c chk, name string, a []string) (error, bool) {
 			}
 		}
 		nv := old + n
-		if (n > 0 && nv < old) || (n < 0 && nv > old) {
+		overflow := (n > 0 && nv < old) || (n < 0 && nv > old)
+		ne := &Entry{Type: THash, H: map[string]string{}}
+		if e != nil {
+			ne = e
+		}
+		// A field last written by HINCRBYFLOAT is float-typed on the server even when it prints as an
+		// integer; adding to it follows float arithmetic. Beyond 2^53 that is inexact but still "adding to
+		// a numeric field": a reply within relative 1e-12 of the exact sum is accepted and adopted.
+		fsum := float64(old) + float64(n)
+		if g, ok := c.rep.AsFloat(); ok && !c.rep.IsErr() && (overflow || math.Abs(fsum) > 1<<53) && FloatEq(g, fsum) {
+			txt, _ := c.rep.Text()
+			ne.H[a[1]] = txt
+			m.set(a[0], ne)
+			return nil, true
+		}
+		if overflow {
 			return c.err(), true
 		}
 		if !canon && c.rep.IsErr() {
 			return nil, true
-		}
-		ne := &Entry{Type: THash, H: map[string]string{}}
-		if e != nil {
-			ne = e
 		}
 		ne.H[a[1]] = strconv.FormatInt(nv, 10)
 		m.set(a[0], ne)
@@ -318,9 +348,15 @@ func (m *Model) stepHash(c chk, name string, a []string) (error, bool) {
 		if e != nil {
 			ne = e
 		}
-		ne.H[a[1]] = FloatMarker + strconv.FormatFloat(nv, 'g', -1, 64)
+		if err := c.number(nv); err != nil {
+			ne.H[a[1]] = FloatMarker + strconv.FormatFloat(nv, 'g', -1, 64)
+			m.set(a[0], ne)
+			return err, true
+		}
+		txt, _ := c.rep.Text()
+		ne.H[a[1]] = txt
 		m.set(a[0], ne)
-		return c.number(nv), true
+		return nil, true
 	case "HRANDFIELD":
 		return m.cmdHRandField(c, a), true
 	}
